@@ -259,3 +259,104 @@ def lemma_no_silent_clamp(model: Model, run: Run, mr) -> None:
                     run.fail(Finding("T1-no-silent-clamp", fq, norm(n), f"`{norm(n)}` is taken without a dominating check that `{x}` has at least `{norm(up)}` octets: "
                                      "a short input is silently truncated instead of raising NotEnougData", model.loc(fi.module, n)))
     run.floor("upper-bounded input slices", n_sites, 2)
+
+
+def _truth_table(e: ast.expr, view: str, n: int):
+    """value of a __bool__ body expression when the view holds n octets (None: a form that is not modelled)"""
+    if isinstance(e, ast.Constant):
+        return e.value
+    if norm(e) == view:
+        return ("view", n)
+    if isinstance(e, ast.Attribute) and e.attr in ("nbytes",) and norm(e.value) == view:
+        return n
+    if isinstance(e, ast.Call) and isinstance(e.func, ast.Name) and e.func.id in ("bool", "len") and len(e.args) == 1 and not e.keywords:
+        v = _truth_table(e.args[0], view, n)
+        if v is None:
+            return None
+        if e.func.id == "len":
+            return v[1] if isinstance(v, tuple) else None
+        return (v[1] > 0) if isinstance(v, tuple) else bool(v)
+    if isinstance(e, ast.UnaryOp) and isinstance(e.op, ast.Not):
+        v = _truth_table(e.operand, view, n)
+        if v is None:
+            return None
+        return not ((v[1] > 0) if isinstance(v, tuple) else v)
+    if isinstance(e, ast.IfExp):
+        t = _truth_table(e.test, view, n)
+        if t is None:
+            return None
+        t = (t[1] > 0) if isinstance(t, tuple) else t
+        return _truth_table(e.body if t else e.orelse, view, n)
+    if isinstance(e, ast.BoolOp):
+        vals = [_truth_table(v, view, n) for v in e.values]
+        if any(v is None for v in vals):
+            return None
+        bs = [(v[1] > 0) if isinstance(v, tuple) else bool(v) for v in vals]
+        return all(bs) if isinstance(e.op, ast.And) else any(bs)
+    if isinstance(e, ast.Compare) and len(e.ops) == 1:
+        a, b = _truth_table(e.left, view, n), _truth_table(e.comparators[0], view, n)
+        if a is None or b is None or isinstance(a, tuple) or isinstance(b, tuple) or isinstance(a, bool) or isinstance(b, bool):
+            return None
+        op = e.ops[0]
+        table = {ast.Gt: a > b, ast.GtE: a >= b, ast.Lt: a < b, ast.LtE: a <= b, ast.Eq: a == b, ast.NotEq: a != b}
+        return table.get(type(op))
+    return None
+
+
+def lemma_reader_truth(model: Model, run: Run) -> None:
+    """L8: `while reader:` / `if reader:` are the only tests for "octets left" in the decoders and in receive(); the reader is
+    true exactly when its view holds at least one octet.  Anything weaker loses delivered octets (they are neither parsed
+    nor kept), anything stronger spins or raises on an empty remainder."""
+    rc = model.cls(READER)
+    fi = rc.methods.get("__bool__") or rc.methods.get("__len__")
+    if fi is None:
+        raise AnalysisError("ASN1Reader defines neither __bool__ nor __len__: truth of a reader is not its remaining data")
+    body = [s for s in fi.node.body if not (isinstance(s, ast.Expr) and isinstance(s.value, ast.Constant))]
+    if len(body) != 1 or not isinstance(body[0], ast.Return) or body[0].value is None:
+        raise AnalysisError(f"{fi.qualname}: not a single return expression")
+    e = body[0].value
+    bad = None
+    for n in range(0, 300):
+        v = _truth_table(e, "self._view", n)
+        if v is None:
+            raise AnalysisError(f"{fi.qualname}: `{norm(e)}` is not a modelled test of self._view")
+        if fi.name == "__len__":
+            v = v[1] if isinstance(v, tuple) else v
+            if isinstance(v, bool) or not isinstance(v, int):
+                raise AnalysisError(f"{fi.qualname}: `{norm(e)}` is not a length")
+            truth = v > 0
+        else:
+            truth = (v[1] > 0) if isinstance(v, tuple) else bool(v)
+        if truth != (n > 0):
+            bad = n
+            break
+    ok = bad is None
+    run.ob("L8-reader-true-iff-octets-remain", ok, {"method": fi.qualname.split(".")[-1], "expression": norm(e)})
+    if not ok:
+        run.fail(Finding("L8-reader-true-iff-octets-remain", fi.qualname, norm(e)[:80],
+                         f"ASN1Reader.{fi.name} returns `{norm(e)}`: with {bad} octet(s) left the reader is {'false' if bad else 'true'}, so "
+                         + ("delivered octets are dropped by every `while reader:` loop instead of being parsed or kept for the next delivery" if bad else "an empty remainder is read"),
+                         model.loc(fi.module, body[0])))
+
+
+def lemma_identity_before_completeness(model: Model, run: Run) -> None:
+    """L7: in the validating helper every rejection that depends on the header alone (wrong identifier) comes before the
+    "content not complete yet" exit: octets that can never become the expected element are refused on arrival, not after
+    waiting for as many further octets as their bogus length field asks for."""
+    from .anchors import asn1 as asn1_anchors
+    an = asn1_anchors(model)
+    fi = an.validate
+    raises = [r for r in walk_no_nested(fi.node) if isinstance(r, ast.Raise) and r.exc is not None]
+    ne, other = [], []
+    for r in raises:
+        q = model.resolve_name(fi.module, norm(r.exc.func if isinstance(r.exc, ast.Call) else r.exc))
+        (ne if q == NOT_ENOUGH else other).append(r)
+    run.coverage["validating_helper_raises"] = {"incomplete": len(ne), "rejecting": len(other)}
+    for r in other:
+        late = [x for x in ne if x.lineno < r.lineno]
+        ok = not late
+        run.ob("L7-identifier-rejected-before-waiting-for-content", ok, {"helper": fi.name, "raise": norm(r)[:60]})
+        if not ok:
+            run.fail(Finding("L7-identifier-rejected-before-waiting-for-content", fi.qualname, norm(r.exc.func if isinstance(r.exc, ast.Call) else r.exc),
+                             f"{fi.name} raises the incomplete-data signal (line {late[0].lineno}) before it rejects a wrong identifier (line {r.lineno}): "
+                             "invalid input is buffered until its claimed length has arrived instead of failing the session at once", model.loc(fi.module, r)))
